@@ -693,6 +693,126 @@ def run(ctx):
                 "decode_eof / decode are not chosen by `remaining <= available`")
 
 
+    with ctx.rule("C10.R16", "T7", "fixed-width reads after a size check never take more bytes than the check established", floor=20) as r:
+        # `if src.remaining() < HEADER_LEN { return Ok(None) }` followed by get_u8 / get_u64 / advance(n): the Buf getters panic when the buffer is
+        # shorter than what they take. On every path from the edge on which `remaining() >= K` holds, the bytes taken by fixed-width reads - up to the
+        # next size test or the first read of a length that is not a constant - must not exceed K. (Reads of variable length are C10.R4's business.)
+        WIDTH = {"get_u8": 1, "get_i8": 1, "get_u16": 2, "get_i16": 2, "get_u32": 4, "get_i32": 4, "get_f32": 4, "get_u64": 8, "get_i64": 8, "get_f64": 8, "get_u128": 16, "get_i128": 16}
+        WIDTH.update({k + "_le": v for k, v in list(WIDTH.items())})
+
+        def lower(e):
+            # a lower bound of an unsigned size expression as the descriptions print it
+            e = e.strip()
+            if re.match(r"^\d+$", e):
+                return int(e)
+            m_ = re.match(r"^(Add|Mul)(WithOverflow|Unchecked)?\((.*)\)(\.0)?$", e)
+            if m_:
+                inner, depth = m_.group(3), 0
+                for i_, ch in enumerate(inner):
+                    depth += ch == "("
+                    depth -= ch == ")"
+                    if ch == "," and depth == 0:
+                        a_, b_ = lower(inner[:i_]), lower(inner[i_ + 1:])
+                        return a_ + b_ if m_.group(1) == "Add" else a_ * b_
+            return 0
+
+        def on_src(b, c):
+            return bool(c.args) and src_root(b, c.args[0], through_calls=False) == 2
+        nchk = 0
+        for c0, b in decs:
+            tag = (b.meta.get("self_adt") or "?").split("::")[-1]
+            checks = {}
+            for sb in range(b.n):
+                t = b.term(sb)
+                if t["k"] != "switch" or b.is_cleanup(sb) or len(t["arms"]) != 1 or int(t["arms"][0][0]) != 0:
+                    continue
+                pc = parse_cmp(switch_desc(b, sb) or "")
+                if not pc:
+                    continue
+                op, x, y = pc
+                fls, tru = t["arms"][0][1], t["otherwise"]
+                size = lambda e: e in ("remaining(src)", "len(src)")
+                si_ = b.switch_info(sb) or {}
+                rv_ = si_.get("rvalue")
+                ops_ = (rv_[2], rv_[3]) if rv_ and rv_[0] == "bin" else (None, None)
+                loc_of = lambda o: op_place(o)[0] if o is not None and op_place(o) is not None and not op_place(o)[1] else None
+                if size(x) and not size(y):
+                    # remaining OP y
+                    edge, k = {"Lt": (fls, lower(y)), "Ge": (tru, lower(y)), "Le": (fls, lower(y) + 1), "Gt": (tru, lower(y) + 1)}[op]
+                    other, plus = loc_of(ops_[1]), op in ("Le", "Gt")
+                elif size(y) and not size(x):
+                    edge, k = {"Gt": (fls, lower(x)), "Le": (tru, lower(x)), "Ge": (fls, lower(x) + 1), "Lt": (tru, lower(x) + 1)}[op]
+                    other, plus = loc_of(ops_[0]), op in ("Ge", "Lt")
+                else:
+                    continue
+                checks[sb] = (edge, k, other, plus)
+            # what a block takes from src with a constant width / whether it takes an amount that is not a constant
+            take, unknown = {}, set()
+            for c in b.calls:
+                if not on_src(b, c) or b.is_cleanup(c.block):
+                    continue
+                if c.name in WIDTH:
+                    take[c.block] = (WIDTH[c.name], c)
+                elif c.name not in ("remaining", "len", "is_empty", "has_remaining", "as_ref", "chunk", "deref", "deref_mut", "index", "as_mut", "borrow", "capacity", "reserve", "first", "get", "iter"):
+                    # anything else that is handed the buffer may take an amount this rule does not know: the count ends there
+                    d_ = describe_operand(b, c.args[1]) if len(c.args) > 1 else ""
+                    if c.name in ("advance", "split_to", "copy_to_bytes") and re.match(r"^\d+$", d_):
+                        take[c.block] = (int(d_), c)
+                    else:
+                        unknown.add(c.block)
+            # walk the decoder from its entry under constant propagation (a size chosen by a flag - `let req = if has_host { MAX } else { MIN }` - and a
+            # flag tested twice are then what they are on the path at hand); the state carries the bound in force and the bytes taken under it
+            nchk += len(checks)
+            worst = {}
+            seen_ = set()
+            work = [(0, frozenset(), None, None, 0)]
+            budget = 60000
+            while work and budget > 0:
+                budget -= 1
+                blk, env, chk, k, used = work.pop()
+                key_ = (blk, env, chk, k, used)
+                if key_ in seen_:
+                    continue
+                seen_.add(key_)
+                if blk in unknown:
+                    chk, k, used = None, None, 0
+                if blk in take and k is not None:
+                    used += take[blk][0]
+                    if used > k:
+                        if chk not in worst or used > worst[chk][0]:
+                            worst[chk] = (used, take[blk][1], k)
+                        chk, k, used = None, None, 0
+                for s_, e_ in b.cp_successors(blk, env):
+                    if blk not in checks:
+                        work.append((s_, e_, chk, k, used))
+                        continue
+                    edge, kk, other, plus = checks[blk]
+                    if s_ != edge:
+                        # the way on which the test says "not enough": nothing is established
+                        work.append((s_, e_, None, None, 0))
+                        continue
+                    kv = kk
+                    if other is not None:
+                        v_ = dict(e_).get((other, ()))
+                        if isinstance(v_, int) and not isinstance(v_, bool):
+                            kv = max(kv, v_ + (1 if plus else 0))
+                    if k is not None and used == 0 and k > kv:
+                        # a weaker test behind a stronger one, nothing taken in between, takes nothing back
+                        work.append((s_, e_, chk, k, used))
+                    else:
+                        # (a further test refers to what is left now: the count starts again)
+                        work.append((s_, e_, blk, kv, 0))
+            for sb in sorted(checks):
+                w = worst.get(sb)
+                r.check(w is None, "%s/check@%d/reads-within-the-checked-size" % (tag, b.term(sb).get("line") or 0), b.loc(b.term(sb).get("line")),
+                        "the bytes taken by fixed-width reads before the next size test stay within what this test established",
+                        "after a test that establishes only `remaining() >= %d` a path takes %d bytes with fixed-width reads (the last one: %s at line %s): when the frame is cut there the getter panics instead of the decoder waiting for more input" % (
+                            w[2] if w else 0, w[0] if w else 0, w[1].name if w else "", w[1].line if w else ""))
+            if budget <= 0:
+                r.bad("%s/path-budget" % tag, where(b), "the decoder has too many paths for the byte accounting (not decided)")
+        if nchk < 20:
+            raise AnchorMissing("decoders: expected the size tests that precede fixed-width reads (found %d)" % nchk)
+
 
 def _short(d):
     d = re.sub(r"\(.*?\)", "()", d)
